@@ -229,54 +229,65 @@ def good_client(sp, rng, tag, j, n, board, out, slow=False):
     try:
         conn = sp.good(sync_timeout=CLIENT_TIMEOUT)
         root = conn.root
-        # bound-method proxies are kept for the whole session: dropping one makes rpyc send an asynchronous DEL, and the
-        # server's two back-to-back replies then wait ~40 ms for a delayed ACK (Nagle) - wall time, not behaviour
-        whoami, setf, getf, echo, make = root.whoami, root.set, root.get, root.echo, root.make
+
+        def call(name, *args):
+            # one request per call (the form rpyc itself uses for special methods). Every request costs one 0.1 s poll
+            # interval on the thread-pool server, and dropping a temporary bound-method proxy makes rpyc send an
+            # asynchronous DEL whose reply delays the next one by a delayed ACK (~40 ms): wall time, not behaviour
+            return conn.sync_request(consts.HANDLE_CALLATTR, root, name, args, ())
+        echo = None if slow else root.echo      # the ordinary proxy path as well, on the fast servers
         step = "whoami"
-        ident = tuple(whoami())
+        ident = tuple(call("whoami"))
         step = "set"
-        setf("k", tok)
-        setf(tok, j)
+        call("set", "k", tok)
+        if not slow:
+            call("set", tok, j)
         step = "make"
-        lst = make()
-        append = lst.append
-        append(tok)
+        lst = call("make")
+        append = None if slow else lst.append
+        if slow:
+            conn.sync_request(consts.HANDLE_CALLATTR, lst, "append", (tok,), ())
+        else:
+            append(tok)
         idp = tuple(lst.____id_pack__)
         with board.lock:
             board.pub[j] = dict(tok=tok, idp=idp, ident=ident)
         out["ident"] = ident
-        nsteps = rng.randrange(1, 4) if slow else rng.randrange(2, 7)
+        nsteps = 1 if slow else rng.randrange(2, 7)
         for i in range(nsteps):
             step = "echo"
             v = gen.gen_plain(rng, 2, surrogates=False)
-            got = echo(v)
+            got = call("echo", v) if slow else echo(v)
             if rc.fingerprint(got) != rc.fingerprint(v):
                 problems.append(("wrong", "echo(%r) returned %r" % (v, got)))
-            append(i)
+            if slow:
+                conn.sync_request(consts.HANDLE_CALLATTR, lst, "append", (i,), ())
+            else:
+                append(i)
             out["calls"] += 2
         step = "barrier"
         together = board.wait(board.b1)
         out["together"] = together
         step = "get"
-        got = getf("k")
+        got = call("get", "k")
         if got != tok:
             with board.lock:
                 others = {p["tok"] for jj, p in board.pub.items() if jj != j}
             problems.append(("crosstalk" if got in others else "wrong",
                              "get('k') returned %r on the connection that stored %r" % (got, tok)))
-        if getf(tok) != j:
+        if not slow and call("get", tok) != j:
             problems.append(("wrong", "get(own token) did not return the stored value"))
         with board.lock:
             foreign_keys = [p["tok"] for jj, p in board.pub.items() if jj != j]
             neighbour = board.pub.get((j + 1) % n) if n > 1 else None
         for fk in foreign_keys[:1 if slow else 3]:
             step = "get-foreign"
-            leak = getf(fk)
+            leak = call("get", fk)
             if leak is not None:
                 problems.append(("crosstalk", "get(%r) (a key stored only by another client) returned %r" % (fk, leak)))
+        proxy = None
         if neighbour is not None and neighbour["tok"] != tok:
             step = "replay"
-            proxy = None
             try:
                 proxy = conn._unbox((consts.LABEL_REMOTE_REF, neighbour["idp"]))
                 r = conn.sync_request(consts.HANDLE_REPR, proxy)
@@ -296,17 +307,22 @@ def good_client(sp, rng, tag, j, n, board, out, slow=False):
         board.wait(board.b2)
         step = "final"
         want = [tok] + list(range(nsteps))
-        n_have = len(lst)
-        have = [lst[i] for i in range(min(n_have, 12))]
-        if n_have != len(want) or have != want:
-            problems.append(("crosstalk" if any(isinstance(x, str) and x != tok for x in have) else "wrong",
-                             "own list is %r (len %d), expected %r" % (have, n_have, want)))
-        again = tuple(whoami())
+        if slow:
+            have = conn.sync_request(consts.HANDLE_REPR, lst)
+            if have != repr(want):
+                problems.append(("crosstalk" if "/g" in have.replace(tok, "") else "wrong", "own list is %s, expected %r" % (have, want)))
+        else:
+            n_have = len(lst)
+            have = [lst[i] for i in range(min(n_have, 12))]
+            if n_have != len(want) or have != want:
+                problems.append(("crosstalk" if any(isinstance(x, str) and x != tok for x in have) else "wrong",
+                                 "own list is %r (len %d), expected %r" % (have, n_have, want)))
+        again = tuple(call("whoami"))
         if again != ident:
             problems.append(("wrong", "whoami changed within one connection: %r -> %r" % (ident, again)))
-        out["calls"] += 12
+        out["calls"] += 10
         step = "close"
-        del lst, root, whoami, setf, getf, echo, make, append, proxy
+        del lst, root, echo, append, proxy
         conn.close()
         out["completed"] = True
     except TimeoutError as e:
@@ -352,16 +368,24 @@ def probe(sp, tag):
     conn = None
     try:
         conn = sp.good(sync_timeout=CLIENT_TIMEOUT)
+        from rpyc.core import consts
         root = conn.root
-        whoami, echo, setf, getf = root.whoami, root.echo, root.set, root.get
-        ident = tuple(whoami())
+
+        def call(name, *args):
+            return conn.sync_request(consts.HANDLE_CALLATTR, root, name, args, ())
+        ident = tuple(call("whoami"))
         t = "probe/" + tag
-        if echo(t) != t:
+        if call("echo", t) != t:
             return ("wrong", "echo mismatch")
-        setf("k", t)
-        if getf("k") != t:
-            return ("wrong", "get after set mismatch")
-        del root, whoami, echo, setf, getf
+        if not sp.kind.startswith("threadpool"):
+            echo = root.echo
+            if echo((t, 1)) != (t, 1):
+                return ("wrong", "echo mismatch")
+            call("set", "k", t)
+            if call("get", "k") != t:
+                return ("wrong", "get after set mismatch")
+            del echo
+        del root
         conn.close()
         return ("ok", ident)
     except TimeoutError as e:
@@ -500,6 +524,7 @@ def run_round(sc, sp, cfg, rname, hostile_classes, n_good, rng, ridx, seen_token
 
 def churn_round(sc, sp, cfg, nthreads, per_thread, ridx):
     """many short well-behaved sessions in parallel (connect, two calls, graceful close): every one must be served"""
+    from rpyc.core import consts
     server = cfg[0]
     results = []
 
@@ -510,10 +535,9 @@ def churn_round(sc, sp, cfg, nthreads, per_thread, ridx):
             try:
                 conn = sp.good(sync_timeout=CLIENT_TIMEOUT)
                 root = conn.root
-                setf, getf = root.set, root.get
-                setf("k", t)
-                got = getf("k")
-                del root, setf, getf
+                conn.sync_request(consts.HANDLE_CALLATTR, root, "set", ("k", t), ())
+                got = conn.sync_request(consts.HANDLE_CALLATTR, root, "get", ("k",), ())
+                del root
                 results.append(("ok", None) if got == t else ("wrong", "get returned %r for %r" % (got, t)))
                 conn.close()
             except TimeoutError as e:
@@ -566,6 +590,14 @@ def run_config(sc, cfg, quick):
     rng = sc.subrng("cfg", server, auth)
     slow = server.startswith("threadpool")      # 0.2 s back-off per error, 0.1 s poll: a quarter of the workload
     classes = BASE_CLASSES + (AUTH_CLASSES if auth else [])
+    pure_classes = list(classes)
+    if slow and quick:
+        # a quarter of the workload: the four thread-pool configurations share the input classes of the pure rounds
+        # (4 workers without / 20 with authenticator: one half; the other two: the other half; all of them in mixed rounds)
+        order = list(BASE_CLASSES)
+        sc.subrng("split").shuffle(order)
+        first = (server == "threadpool4") != auth
+        pure_classes = (order[:len(order) // 2] if first else order[len(order) // 2:]) + (AUTH_CLASSES if auth else [])
     try:
         sp = rn.ServerProc(server, auth=auth)
     except rn.ChildError as e:
@@ -577,7 +609,7 @@ def run_config(sc, cfg, quick):
         plan = []
         passes = 1 if quick else 2
         for _ in range(passes):
-            order = list(classes)
+            order = list(pure_classes)
             rng.shuffle(order)
             for cls in order:
                 if quick:
